@@ -77,6 +77,31 @@ Theorem C02_probcover_loop_rows :
 Proof. intros cs n edges is_cand k noises H1 H2 H3 H4 H5 H6 t i p row Hi. exact (probcover_rows cs n edges is_cand k noises H1 H2 H3 H4 H5 H6 i (p, row) Hi). Qed.
 Print Assumptions C02_probcover_loop_rows.
 
+Theorem C02_oracle_loop_rows :
+  forall (n : nat) (cs : list nat) (score : list nat -> list val) (k : nat) (noises : list (list Z)),
+  (forall prev, length (score prev) = length cs /\ Forall (fun v => is_nan v = false) (score prev)) ->
+  NoDup cs -> Forall (fun i => (i < n)%nat) cs -> (k <= length cs)%nat -> noises_ok n k noises ->
+  let t := oracle_loop n cs score k noises in
+  forall i p row, nth_error t i = Some (p, row) ->
+  length row = n /\ (p < n)%nat /\
+  (forall j, (j < n)%nat -> (nth j row None = None <-> (~ In j cs \/ In j (firstn i (map fst t))))) /\
+  exists v, nth p row None = Some v /\ nanmax row = Some v.
+Proof. intros n cs score k noises H1 H2 H3 H4 H5 t i p row Hi. exact (oracle_loop_rows n cs score k noises H1 H2 H3 H4 H5 i (p, row) Hi). Qed.
+Print Assumptions C02_oracle_loop_rows.
+
+Theorem C02_greedy_sampling_rows :
+  forall (d : nat -> nat -> Z) (n_samples : nat) (labeled : list nat) (cidx : nat -> nat)
+         (n : nat) (mapping : list nat) (k : nat) (noises : list (list Z)),
+  NoDup mapping -> Forall (fun i => (i < n)%nat) mapping -> (k <= length mapping)%nat ->
+  cnoises_ok (length mapping) k noises ->
+  let t := remap n mapping (gsx_loop d n_samples labeled cidx (length mapping) k noises) in
+  forall i p row, nth_error t i = Some (p, row) ->
+  length row = n /\ (p < n)%nat /\
+  (forall j, (j < n)%nat -> (nth j row None = None <-> (~ In j mapping \/ In j (firstn i (map fst t))))) /\
+  exists v, nth p row None = Some v /\ nanmax row = Some v.
+Proof. intros d ns lab cidx n mapping k noises H1 H2 H3 H4 t i p row Hi. exact (gsx_rows d ns lab cidx n mapping k noises H1 H2 H3 H4 i (p, row) Hi). Qed.
+Print Assumptions C02_greedy_sampling_rows.
+
 (* rows built with one tie-break and winners re-derived with another one (the
    BatchBALD pattern) allow a repeated pick: witness with two tied maxima *)
 Theorem C02_two_tiebreaks_refuted :
